@@ -105,7 +105,13 @@ void tickit_rectset_add(TickitRectSet *trs, const TickitRect *rect)
   int left   = rect->left;
   int right  = tickit_rect_right(rect);
 
+  TickitRect cur;
+
 restart:
+  // After a stretch the rectangle being added has grown: everything below must
+  // work on the grown area, not on the original argument
+  tickit_rect_init_bounded(&cur, top, left, bottom, right);
+
   for(int i = 0; i < trs->count; i++) {
     TickitRect *r = trs->rects + i;
     int r_bottom = tickit_rect_bottom(r);
@@ -119,7 +125,7 @@ restart:
     if(top > r_bottom || left > r_right || right < r->left)
       continue;
 
-    if(tickit_rect_contains(r, rect))
+    if(tickit_rect_contains(r, &cur))
       // Already entirely covered, just return
       return;
 
@@ -150,7 +156,7 @@ restart:
     // it now must be composed of, delete r, then recurse on those to-be-added
     // rects instead.
     TickitRect to_add[3];
-    int n = tickit_rect_add(to_add, r, rect); // TODO: top/left/bottom/right ?
+    int n = tickit_rect_add(to_add, r, &cur);
 
     delete_rect(trs, i);
 
